@@ -42,7 +42,7 @@ FORMS = ["list", "gen", "iter1", "path", "string"]
 
 def budget(tier):
     if tier == "quick":
-        return {"runs": 400, "wall": 75, "chunk": 5}
+        return {"runs": 400, "wall": 120, "chunk": 5}
     return {"runs": 40000, "wall": 1500, "chunk": 8}
 
 
